@@ -148,6 +148,7 @@ def step [Inhabited V] (ord : Nat → Nat) (sp : Spec V) : Op V → Spec V × Ou
   | .copy => (copy sp, .unit)
   | .move => (sp, .unit)
   | .merge ins rem => (merge sp (buildOperand ins rem), .unit)
+  | .selfMerge => (sp, .unit)
 
 def run [Inhabited V] (ord : Nat → Nat) : Spec V → List (Op V) → Spec V × List (Out V)
   | sp, [] => (sp, [])
